@@ -71,6 +71,13 @@ def c_wrong(cls, data):
     return 0 if cls is str else "wrong"
 
 
+def c_wrong_container(cls, data):
+    """wrong-typed result that cannot even be hashed (a JSON-decoding coercer handing back what it parsed)"""
+    if _fits(cls, data):
+        return data
+    return [1] if cls is dict else {"w": 1}
+
+
 def c_raise(cls, data):
     if _fits(cls, data):
         return data
@@ -110,6 +117,7 @@ def run_type(i, label, spec, tier, st):
         m_right = apischema.deserialization_method(rz.tp, coerce=c_right)
         m_wrong = apischema.deserialization_method(rz.tp, coerce=c_wrong)
         m_raise = apischema.deserialization_method(rz.tp, coerce=c_raise)
+        m_wrongc = apischema.deserialization_method(rz.tp, coerce=c_wrong_container)
         settings.deserialization.coerce = True
         try:
             m_settings = apischema.deserialization_method(rz.tp)
@@ -162,7 +170,7 @@ def run_type(i, label, spec, tier, st):
         if kk != kc or (kk == "ok" and not _same(oo, oc)):
             st.violation(dict(base, signature={"kind": "settings_route_differs"}, what=f"settings.deserialization.coerce=True gives {kk}:{oo!r}, coerce=True gives {kc}:{oc!r}"[:400], source=src))
         # (c) custom coercers
-        for mode, m in (("wrong", m_wrong), ("raise", m_raise)):
+        for mode, m in (("wrong", m_wrong), ("wrong", m_wrongc), ("raise", m_raise)):
             kk, oo = dc.run_impl(m, d)
             st.case(dc.shape_of(label), mode, type(d).__name__, ks, kk)
             if kk == "exc":
@@ -373,7 +381,7 @@ def run_pass_through(st):
     ]
     for name, tp, datum, pt in cases:
         ks, os_ = dc.run_impl(lambda d: apischema.deserialize(tp, d, pass_through=pt), datum)
-        for mode, kw in (("coerce", {"coerce": True}), ("right", {"coerce": c_right}), ("wrong", {"coerce": c_wrong}), ("raise", {"coerce": c_raise})):
+        for mode, kw in (("coerce", {"coerce": True}), ("right", {"coerce": c_right}), ("wrong", {"coerce": c_wrong}), ("wrong", {"coerce": c_wrong_container}), ("raise", {"coerce": c_raise})):
             kc, oc = dc.run_impl(lambda d: apischema.deserialize(tp, d, pass_through=pt, **kw), datum)
             st.case("pass_through", name, mode, ks, kc)
             if ks == "ok" and (kc != "ok" or not _same(os_, oc)):
